@@ -133,6 +133,11 @@ func (x *searcher) checkDry(s, n *State, o buildOpts, res *buildResult) {
 		if x.prop == "C13" {
 			x.violation("dry-run:"+sig, what, s, n.Hist, res)
 		}
+		// (not with an injected record-write fault: which targets it hits in the real twin is a matter of timing)
+		if x.prop == "C18" && !s.V.Sabotage && (sig == "prediction-differs" || sig == "under-prediction" || sig == "over-prediction") {
+			// 'evaluating' is reported exactly when the body would run
+			x.violation("protocol:dry-run-evaluating:"+sig, what, s, n.Hist, res)
+		}
 	}
 	if len(res.Steps) > 0 || len(res.Emits) > 0 {
 		bad("body-executed", fmt.Sprintf("dry run executed bodies %v", res.Steps))
@@ -174,6 +179,9 @@ func (x *searcher) checkDry(s, n *State, o buildOpts, res *buildResult) {
 				bad("over-prediction", fmt.Sprintf("the dry run reported %s, which the (failing) real build did not attempt and which is not downstream of the failure", t))
 			}
 		}
+	}
+	if x.prop != "C13" {
+		return
 	}
 	// ... also on one and the same Project value (dry run, Reload, Run with nil options), as
 	// watch mode and library users drive it
